@@ -61,3 +61,19 @@ open Pandora.C11
 #print axioms Pandora.C11KernelsGlue.cropBox_model
 #print axioms Pandora.C11KernelsGlue.prepLeft_generated_eq
 #print axioms Pandora.C11KernelsGlue.prepRight_generated_eq
+-- the whole generated cost_volume_aggregation (sequential loop with `agg` as state) = Cbca.aggregate, and C11's clauses about it
+#print axioms Pandora.C11KernelsGlue.cbcaStep1_generated_eq_of
+#print axioms Pandora.C11KernelsGlue.aggPlane_generated_eq_of
+#print axioms Pandora.C11KernelsGlue.aggLoopBody_frame
+#print axioms Pandora.C11KernelsGlue.aggLoopBody_reads
+#print axioms Pandora.C11KernelsGlue.forPlanes_inv
+#print axioms Pandora.C11KernelsGlue.costVolumeAggregation_generated_eq
+#print axioms Pandora.C11KernelsGlue.costVolumeAggregation_generated_model
+#print axioms Pandora.C11KernelsGlue.costVolumeAggregation_generated_spec
+#print axioms Pandora.C11KernelsGlue.costVolumeAggregation_generated_plane_independent
+#print axioms Pandora.C11KernelsGlue.nanReplacement_generated_eq
+#print axioms Pandora.C11KernelsGlue.shiftMask_generated_width
+#print axioms Pandora.C11KernelsGlue.cmaxUpdate_generated_eq
+#print axioms Pandora.C11KernelsGlue.leftMaskTest_generated_eq
+#print axioms Pandora.C11KernelsGlue.rightMaskTest_generated_eq
+#print axioms Pandora.C11KernelsGlue.shiftMaskTest_generated_eq
